@@ -330,6 +330,8 @@ Proof.
     + destruct (cost <? 3) eqn:E; split; auto; intro; lia.
     + destruct (cost <? 3) eqn:E; split; auto; intro; lia.
     + destruct (cost <? 3) eqn:E; split; auto; intro; lia.
+    + destruct (cost <? 3) eqn:E; split; auto; intro; lia.
+    + destruct (cost <? 3) eqn:E; split; auto; intro; lia.
   - (* docp *) split; [reflexivity|]. intro cost. simpl. split; auto.
   - split; [exact I|]. intro cost. simpl. split; auto.
 Qed.
